@@ -141,7 +141,8 @@ class C18(Prop):
                 yield {'kind': 'split', 's': tp(s)}
             else:
                 host = rng.choice(['example.com', 'a', 'a-b.c_d', '1.2.3.4', '255.0.0.1', '::1', '2001:db8::1', 'fe80::1%eth0', 'fe80::1%]',
-                                   'fe80::1%a]:1', '::ffff:1.2.3.4', 'fe80::1%[', 'x' * 63 + '.y', 'localhost.'])
+                                   'fe80::1%a]:1', '::ffff:1.2.3.4', 'fe80::1%[', 'x' * 63 + '.y', 'localhost.',
+                                   'fe80::1%wlan\n0', 'fe80::1%a\rb', 'fe80::1%\x85', 'fe80::1%\u2028x', 'fe80::1%a b', 'fe80::1%\t'])
                 port = rng.choice([1, 80, 65535, rng.randrange(1, 65536)])
                 if rng.random() < 0.5:
                     yield {'kind': 'netaddr', 'host': tp(host), 'port': port}
